@@ -333,6 +333,23 @@ async def _scenario(loop, sc):
                 return ltmp + s if s.startswith("/") else s
 
         client = aioftp.Client(path_io_factory=factory)
+        if sc.get("client_past"):
+            # the Client object has a past: it was connected to ANOTHER server before (one without MLSD/MLST, whose replies
+            # and listings are spelled differently), listed and stat'ed there, and quit.  What it learned there stays there.
+            import foreign
+
+            fs = foreign.ForeignServer(wd.net, {"mlsd": False, "mlst": False, "multiline": "mixed", "epsv": False})
+            fs.tree = {("old",): None, ("old", "f"): b"x", ("old", "sub"): None}
+            await fs.start(2199)
+            await client.connect("127.0.0.1", 2199)
+            await client.login()
+            await client.list("/", recursive=True)
+            await client.stat("/old/f")
+            await client.change_directory("/old")
+            async with client.download_stream("f", offset=1) as st_:
+                await st_.read()
+            await client.quit()
+            await fs.close()
         await client.connect("127.0.0.1", wd.port)
         await client.login()
         if sc["rcwd"] != "/":
@@ -718,6 +735,9 @@ def gen_scenarios(ctx, search=False):
                     v = n
                     scs.append(make_scenario(node, node, ["", "d"][(j + k) % 2] if wi else "", wi, "/", m, BLOCKS[n % 3], "", bool(k), src_name=src_name,
                                              rem_name=rem_name, abs_source=True, variant=v - v % 10))  # variant % 2 == 0: relative remote source
+                    if nm in LEADING_BLANK_NAMES or (j % 4 == 0 and m):
+                        # ... and once more with a Client object that was connected to another server before
+                        scs.append(dict(scs[-1], client_past=True))
                     n += 1
     # (7) a tree addressed THROUGH `..` from a working directory that is not its parent: list, download, remove, upload
     for j, node in enumerate(FIXED[:5] + small_dirs[:3]):
@@ -770,6 +790,7 @@ def _classify(sc, res):
     res.count("cwd=%s" % sc["rcwd"])
     res.count("server=%s" % ("mlsd" if sc["mlsx"] else "list-fallback"))
     res.count("backends=%s/%s" % (sc["rbackend"], sc["lbackend"]))
+    res.count("client=%s" % ("used-before-on-another-server" if sc.get("client_past") else "fresh"))
     res.count("peer=%s" % ("aioftp" if sc.get("peer") is None else "foreign:" + ",".join("%s=%s" % kv for kv in sorted(sc["peer"].items()))))
     res.count("block=%s" % up.get("bs"))
     n_src = sum(1 for p, c in sc["local"] if p[:1] == ["src"]) - 1
